@@ -2061,7 +2061,7 @@ def poincare_to_halfspace(points):
     v = points[..., 1:]
     x2 = utils.normsq(v)
 
-    halfspace_coords = np.zeros_like(points)
+    halfspace_coords = np.zeros_like(points, dtype=np.result_type(points, 1.0))
     denom = (x2 + (y - 1)*(y - 1))
 
     with np.errstate(divide="ignore", invalid="ignore"):
@@ -2075,7 +2075,7 @@ def halfspace_to_poincare(points):
     v = points[..., :-1]
     x2 = utils.normsq(v)
 
-    poincare_coords = np.zeros_like(points)
+    poincare_coords = np.zeros_like(points, dtype=np.result_type(points, 1.0))
     denom = (x2 + (y + 1)*(y + 1))
     poincare_coords[..., 1:] = (-2 * v) / denom[..., np.newaxis]
     poincare_coords[..., 0] = (x2 + y * y - 1) / denom
